@@ -57,9 +57,12 @@ extern "C" void h_path_split_stub3(std::filesystem::path*) {}
 namespace protocol = ephemeralnet::protocol;
 struct CliException : std::runtime_error { using std::runtime_error::runtime_error; };
 [[noreturn]] static void throw_cli_error(std::string code, std::string message, std::string = {}) { throw CliException(code + ": " + message); }
+#include "ephemeralnet/security/StoreProof.hpp"
+// the content-derived chunk id (SHA-256 of the payload), in case lifted code refers to it
+namespace ephemeralnet::security { ChunkId derive_chunk_id(std::span<const std::uint8_t> data) { ChunkId id{}; const auto d = crypto::Sha256::digest(data); for (std::size_t i = 0; i < 32; ++i) id[i] = d[i]; return id; } }
 namespace {
-#include SNIP_DECRYPT
 #include SNIP_AUTO
+#include SNIP_DECRYPT
 }
 #ifndef VERIF_NATIVE
 namespace std { using verif_ofstream_alias = verif_io::OutFile; inline verif_io::Console& verif_cout_alias = verif_io::g_console; }
@@ -97,10 +100,23 @@ extern "C" void h_c30_decrypt(unsigned long nshards, unsigned long len) {
     else verif_reach("refused");
 }
 // control paths: whatever a control endpoint (hint, control:// fallback, local daemon) returned is written only if it hashes to the content hash
-extern "C" void h_c30_finalize(unsigned long len) {
-    const protocol::Manifest m = make_manifest(1);
+extern "C" void h_c30_finalize(unsigned long len, unsigned long extra_header) {
+    protocol::Manifest m = make_manifest(1);
     ephemeralnet::daemon::ControlResponse response{}; response.success = true; response.has_payload = true; response.fields["SIZE"] = "1";
     response.payload.resize(len); if (len) nondet_bytes(response.payload.data(), len, "returned_bytes");
+    // the manifest's content hash and chunk id are "the digest of the delivered bytes XOR a symbolic difference" (any value, phrased so
+    // that counterexamples replay with the real SHA-256); the endpoint may add any header of its own to the response
+    {
+        const auto d = crypto::Sha256::digest(std::span<const std::uint8_t>(response.payload));
+        std::uint8_t dh[32], di[32]; nondet_bytes(dh, 32, "content_hash_difference"); nondet_bytes(di, 32, "chunk_id_difference");
+        for (std::size_t i = 0; i < 32; ++i) { m.chunk_hash[i] = static_cast<std::uint8_t>(d[i] ^ dh[i]); m.chunk_id[i] = static_cast<std::uint8_t>(d[i] ^ di[i]); }
+    }
+    if (extra_header) {
+        std::string key, value;
+        for (int i = 0; i < 9; ++i) { const std::uint8_t c = nondet_u8("extra_header_key"); verif_assume(c >= 'A' && c <= 'Z'); key.push_back(static_cast<char>(c)); }
+        for (int i = 0; i < 8; ++i) { const std::uint8_t c = nondet_u8("extra_header_value"); verif_assume(c >= 0x20 && c < 0x7f); value.push_back(static_cast<char>(c)); }
+        response.fields[key] = value;
+    }
 #ifdef VERIF_NATIVE
     const char* wd = std::getenv("VERIF_WORK"); const std::filesystem::path out = std::filesystem::path(wd ? wd : ".") / "c30_out.bin"; std::filesystem::remove(out);
 #else
